@@ -132,6 +132,18 @@ PROPS["C09"] = dict(
     assumptions=["stored pairs respect the API size limits for the transport-limit corollary"],
 )
 
+PROPS["C10"] = dict(
+    title="Revisions follow commit order; linearizable reads see all acknowledged writes",
+    design_ref="DESIGN.md section 7 (C10)",
+    run_files=["Run/FsmRun.v"],
+    engines=[dict(cmd=["c10"], corr="Model.Linear + Model.Fsm <-> table.ActiveTable.{Put,Delete,Txn,Range} over a simulated Raft host with real fsm.FSM replicas")],
+    level_text="Theorems: every API mutation (incl. a transaction with an empty executed branch) reports revision = its log index, revisions of a log are its indices in order, a replica with k >= a applied entries contains all a acknowledged writes, serializable reads answer from a prefix state; the read-path choice of the table layer is checked on the real table.ActiveTable with a simulated Raft host (three real FSM replicas, seed-chosen lag and batching), whose responses are also compared with the model and the specification.",
+    level_note="Trusts: Coq kernel; dragonboat's ReadIndex contract is an explicit assumption (embodied by the simulated host); concurrency between clients is represented by the commit order only (sequential client scripts); Pebble-as-sorted-map.",
+    technique="Coq proof (prefix/append lemmas over spec_entries) + simulated-Raft-host differential check through table.ActiveTable",
+    trusted=_FSM_TRUSTED + ["simulated Raft host in the harness (harness/c10.go) standing for dragonboat NodeHost"], label=fsm_label,
+    assumptions=["ReadIndex contract: a SyncRead started when a entries are committed is served from a state with >= a applied entries", "log indices strictly increase"],
+)
+
 # Properties not (yet) claimed, each with a reason; kept current as checks are added.
 _PENDING = "check not built yet in this development; will be claimed once its model, theorems and correspondence harness exist"
 NOT_APPLICABLE = [dict(property_id="C%02d" % i, reason=_PENDING) for i in range(1, 20) if "C%02d" % i not in PROPS]
